@@ -1019,8 +1019,37 @@ fn run_impl(xml: &str, looks: &[String], probes: &[String], fpool: &[(String, Ex
             nodes.iter().map(|n| n.2.as_str()).collect::<Vec<_>>().join("|"),
             inval.iter().map(|(a, b)| format!("@{}>@{}", hx(a), hx(b))).collect::<Vec<_>>().join(","),
             lk.join(","),
-            all_cells(&cx.value_store).join(","),
-            d.imm.borrow().iter().map(|i| i.to_string()).collect::<Vec<_>>().join(",")
+            {
+                // cells in the order the immediates first refer to them, then the total number of
+                // cells (a cell no immediate refers to would show in the count)
+                let cells = all_cells(&cx.value_store);
+                let mut order: Vec<u32> = vec![];
+                for i in d.imm.borrow().iter() {
+                    if !order.contains(i) {
+                        order.push(*i);
+                    }
+                }
+                let mut v: Vec<String> = order.iter().map(|i| cells.get(*i as usize).cloned().unwrap_or_else(|| "!".into())).collect();
+                v.push(format!("n={}", cells.len()));
+                v.join(",")
+            },
+            {
+                // value ids renumbered by first use: a refactoring that only renumbers the cells
+                // does not show, two immediates sharing a cell do
+                let mut order: Vec<u32> = vec![];
+                d.imm
+                    .borrow()
+                    .iter()
+                    .map(|i| {
+                        let k = order.iter().position(|x| x == i).unwrap_or_else(|| {
+                            order.push(*i);
+                            order.len() - 1
+                        });
+                        k.to_string()
+                    })
+                    .collect::<Vec<_>>()
+                    .join(",")
+            }
         );
         Out { answer, rd: rd_s, nodes, inval, looks: lk, probes: pr, beh: vec![], beh_counts: (0, 0, 0) }
     });
@@ -1489,9 +1518,6 @@ impl<'a> Gen<'a> {
             // model's `is_alphabetic` transcription covers: such names land in the sniffed
             // immediate-or-reference positions (pValue, pMin, pLength, ...)
             let uni = self.rng.chance(1, 8);
-            if uni {
-                self.rep.count("name:non-ascii-first-letter");
-            }
             for i in 0..len {
                 if uni && (i == 0 || self.rng.chance(1, 4)) {
                     s.push(*self.rng.pick(&UNI_LETTERS));
@@ -1513,12 +1539,16 @@ impl<'a> Gen<'a> {
     }
 
     fn decl_name(&mut self) -> String {
-        if self.next < self.pool.len() {
+        let n = if self.next < self.pool.len() {
             self.next += 1;
             self.pool[self.next - 1].clone()
         } else {
             self.fresh_name()
+        };
+        if !n.chars().next().map_or(true, |c| c.is_ascii()) {
+            self.rep.count("declared-name:non-ascii-first-letter");
         }
+        n
     }
 
     fn ref_name(&mut self) -> String {
@@ -1526,6 +1556,9 @@ impl<'a> Gen<'a> {
             0..=84 => {
                 self.rep.count("ref:near-pool(mostly declared)");
                 let i = self.rng.below(self.reach.min(self.pool.len()) as u64) as usize;
+                if !self.pool[i].chars().next().map_or(true, |c| c.is_ascii()) {
+                    self.rep.count("referenced-name:non-ascii-first-letter");
+                }
                 self.pool[i].clone()
             }
             85..=92 => {
@@ -1563,7 +1596,15 @@ impl<'a> Gen<'a> {
         };
         // a negative value is written in decimal, or as the hexadecimal 64-bit pattern (bit 63 set)
         let form = if v < 0 { if self.rng.chance(1, 3) { 6 + self.rng.below(2) } else { 0 } } else { self.rng.below(6) };
+        let form = if form <= 1 && self.rng.chance(1, 4) { 8 } else { form };
         let (s, f) = match form {
+            8 => {
+                // the lexical space -?[0-9]+ admits leading zeros: 010 is ten, -007 is minus seven
+                let w = 2 + self.rng.below(6) as usize;
+                let a = v.unsigned_abs();
+                let sign = if v < 0 { "-" } else if self.rng.chance(1, 4) { "+" } else { "" };
+                (format!("{sign}{:0w$}", a, w = w.max(a.to_string().len() + 1)), "decimal-leading-zeros")
+            }
             6 => (format!("0x{:X}", v as u64), "0x-bit63-set"),
             7 => (format!("0X{:x}", v as u64), "0X-bit63-set"),
             0 => (v.to_string(), if v < 0 { "neg-decimal" } else { "decimal" }),
@@ -1586,7 +1627,8 @@ impl<'a> Gen<'a> {
             1 => self.rng.interesting_u64(),
             _ => self.rng.below(100_000),
         };
-        let (s, f) = match self.rng.below(5) {
+        let (s, f) = match self.rng.below(6) {
+            5 => (format!("{:0w$}", v, w = v.to_string().len() + 1 + self.rng.below(4) as usize), "decimal-leading-zeros"),
             0 | 1 => (v.to_string(), "decimal"),
             2 => (format!("+{v}"), "plus-decimal"),
             3 => (format!("0x{:x}", v), "0x-lower"),
@@ -1694,6 +1736,11 @@ impl<'a> Gen<'a> {
     }
 
     fn lit_str(&mut self) -> String {
+        // xs:string keeps whitespace: whitespace-only text is a value like any other
+        if self.rng.chance(1, 12) {
+            self.rep.count("string:whitespace-only");
+            return self.rng.pick(&[" ", "  ", "\n  ", "\t", " \n"]).to_string();
+        }
         loop {
             let n = 1 + self.rng.below(12) as usize;
             let mut s = String::new();
@@ -2149,7 +2196,8 @@ impl<'a> Gen<'a> {
                         }
                         2 => {
                             // both attributes: the standard makes them alternatives; the parser
-                            // (`Option::xor`) then takes neither - pinned, not judged (assumption)
+                            // (`Option::xor`) then takes neither - pinned by the model diff; the expectation
+                            // oracle does not judge the offset of such a node (`*`)
                             self.rep.count("address:pIndex+Offset+pOffset(both: neither is used)");
                             let (s, _) = self.lit_i64();
                             let o = self.ref_name();
@@ -2157,7 +2205,7 @@ impl<'a> Gen<'a> {
                             if self.rng.bool() {
                                 a.swap(0, 1);
                             }
-                            (a, "~".to_string())
+                            (a, "*".to_string())
                         }
                         3 | 4 => {
                             self.rep.count("address:pIndex+Offset");
@@ -2562,7 +2610,7 @@ impl<'a> Gen<'a> {
                     // every node still owns its declared immediate
                     let mut e = if self.rng.chance(3, 5) {
                         self.rep.count("string-value:common-constant");
-                        let t = *self.rng.pick(&["N/A", "", "default", "0"]);
+                        let t = *self.rng.pick(&["N/A", "", "default", "0", " "]);
                         El::new(self.mk("Value", t), "val", ss(t))
                     } else {
                         self.e_str("Value", "val")
@@ -3030,6 +3078,9 @@ fn oracle_retrievable(rep: &mut Report, case: &Case, res: &Res) {
             }
             Some((_, line)) => {
                 for f in diff_fields(line, &e.line) {
+                    if f == "ad" && e.line.contains("X(*;") {
+                        continue; // Offset AND pOffset: which one counts is not judged
+                    }
                     let mut sig = json!({"kind": "retrievable", "what": "field", "node_kind": e.kind, "field": f, "class": case.cls});
                     add_meta(&mut sig, e.meta.as_ref(), &f);
                     emit(rep, sig, format!("{} `{}` field {f}: got {line} expected {}", e.kind, e.name, e.line));
@@ -3509,7 +3560,7 @@ fn alpha_sweep(rep: &mut Report) {
             }
         }
         rep.count("alphabet-sweep:windows");
-        rep.case(&format!("alpha {lo} {hi}"), true);
+        rep.case(&format!("alpha {lo} {hi}"), false); // a table comparison, not a document
         rep.expect(format!("c17 alpha {lo} {hi}"), ranges.join(","));
     }
 }
@@ -3546,6 +3597,20 @@ fn fixed_cases() -> Vec<(&'static str, X)> {
         ("comment-only-tooltip", rd(vec![n("Node", "N", vec![xe("ToolTip", vec![], vec![X::C("secret".into())])])])),
         ("empty-string-value", rd(vec![n("String", "S", vec![t("Value", "")])])),
         ("no-nodes", rd(vec![])),
+        (
+            // Rust's f64 grammar beyond the schema's: the sign of a NaN is kept
+            "numeric-value-negative-nan",
+            rd(vec![n(
+                "Enumeration",
+                "N",
+                vec![
+                    n("EnumEntry", "Off", vec![t("Value", "0"), t("NumericValue", "-nan")]),
+                    n("EnumEntry", "On", vec![t("Value", "1"), t("NumericValue", "+NaN")]),
+                    n("EnumEntry", "Inf", vec![t("Value", "2"), t("NumericValue", "-infinity")]),
+                    t("Value", "0"),
+                ],
+            )]),
+        ),
         (
             // equal string (and integer / float) immediates: every node owns its cell
             "equal-immediates",
@@ -3634,7 +3699,8 @@ fn one_valid(rep: &mut Report, rng: &mut Rng, fpool: &[(String, Expr)], idx: u64
             8..=10 => 2,
             _ => 0,
         };
-        g.explicit_default = (11..=16).contains(&cls_roll);
+        // an entry may declare any value explicitly, the default included (override semantics)
+        g.explicit_default = true;
         let (rd, items) = g.gen_doc();
         let cls = if g.empty_mode == 1 && g.emptied > 0 {
             "empty-text"
@@ -3762,7 +3828,7 @@ fn main() {
     let args = parse_args();
     let mut rep = Report::new(
         "C17",
-        "random schema-ordered GenApi documents (2-12 top-level items over all 20 element kinds incl. Group/StructReg, every optional element/attribute independently present or absent, all literal forms, whitespace/comment noise) plus struct-desugar and group-flat twin documents and a separate malformed stream; a case is non-trivial when GenApiBuilder::build succeeds and stores at least one node; distinct by hash of the XML text",
+        "random schema-ordered GenApi documents (quick: 400 independent ones, thorough: 4000; 2-12 top-level items over all 20 element kinds incl. Group/StructReg, every optional element/attribute independently present or absent, all literal forms, whitespace/comment/PI noise, namespaces) plus their struct-desugar and group-flat twin documents, 9 fixed documents and a separate malformed stream of 16 classes (quick 150, thorough 1500); the 4 alphabet-table comparisons are evaluations but not documents; a case is non-trivial when GenApiBuilder::build succeeds and stores at least one node; distinct by hash of the XML text",
     );
     let mut rng = Rng::new(args.seed);
     let fpool = formula_pool();
